@@ -2015,6 +2015,132 @@ theorem fetch_mark_slow_iff (e : Env) (infl : Inflight) (ps : PeersSt) (peer fet
       omega
 
 
+/-- in a rooted store whose genesis has no stored parent, a parent walk that succeeds stays above genesis -/
+theorem walk_some_isAnc {store : Store} (ok : StoreOk store) {g : Hdr} (hroot : Rooted store g)
+    (hgp : store g.parent = none) : ∀ (j : Nat) (h t : Hdr), store h.id = some h →
+    walk store j h = some t → IsAnc store t h ∧ store t.id = some t := by
+  intro j
+  induction j with
+  | zero =>
+    intro h t hs hw
+    simp [walk] at hw
+    subst hw
+    exact ⟨isAnc_refl _ _, hs⟩
+  | succ j ih =>
+    intro h t hs hw
+    have hpos : 0 < h.number := by
+      apply Nat.pos_of_ne_zero
+      intro h0
+      have hg := hroot h hs
+      rw [h0] at hg
+      simp [walk] at hg
+      subst hg
+      simp [walk, hgp] at hw
+    obtain ⟨p, hp1, hpn, hps, hpk⟩ := walk_one ok hs hpos
+    rw [hpk j] at hw
+    obtain ⟨ha, hts⟩ := ih p t hps hw
+    have hph : IsAnc store p h := ⟨by omega, by
+      have : h.number - p.number = 1 := by omega
+      rw [this]; exact hp1⟩
+    exact ⟨isAnc_trans ha hph, hts⟩
+
+/-- (2'), in a header store: when the node view of `fetch` is the one over a well-formed, rooted header
+store (ancestor lookups through skip pointers, header views from the store) and the peer's best known
+header `b` and previous last common header are known headers, EVERY value `fetch` writes to the peer's
+last common header is a known header `c` that is an ancestor of the best known header `b`, and it is
+stored and valid with us, or is `b` itself on our main chain, or is an ancestor of the previous value
+(resp. of our main-chain block at min(tip, b.number) when there was none). -/
+theorem fetch_writes_are_ancestors_of_best {store : Store} (ok : StoreOk store)
+    {scan : Nat → Hdr → Option Hdr} (sok : ScanOk store scan) {g : Hdr} (hroot : Rooted store g)
+    (hgp : store g.parent = none) {e : Env}
+    (hanc : ∀ base n, e.anc base n = (store base).bind (fun b => getAncestor store scan b n))
+    (hhdr : ∀ i, e.hdr i = store i)
+    (infl : Inflight) (ps : PeersSt) (peer fetchEnd : Nat) {bk : HIdx}
+    (hbk : (ps.get peer).bind (·.best) = some bk) {b : Hdr} (hb : store b.id = some b)
+    (hbn : bk.number = b.number ∧ bk.hash = b.id)
+    (hprev : ∀ x, (ps.get peer).bind (·.lastCommon) = some x → ∃ hx, store hx.id = some hx ∧ x = nhOf hx)
+    (hmain : ∀ n id, e.mainHash n = some id → ∃ m, store m.id = some m ∧ m.id = id ∧ m.number = n) :
+    ∃ ws, (fetch e infl ps peer fetchEnd).2.2 = applyWrites peer ws ps ∧
+      ∀ x ∈ ws, ∃ c, x = nhOf c ∧ store c.id = some c ∧ IsAnc store c b ∧
+        ((e.stored c.id = true ∧ e.valid c.id = true) ∨ (c = b ∧ (e.numOnMain b.id).isSome = true) ∨
+         (∃ hx, (ps.get peer).bind (·.lastCommon) = some (nhOf hx) ∧ IsAnc store c hx) ∨
+         ((ps.get peer).bind (·.lastCommon) = none ∧
+            ∃ m, e.mainHash (min e.tipNumber b.number) = some m.id ∧ IsAnc store c m)) := by
+  obtain ⟨ws, hws, hgood⟩ := fetch_last_common_writes e infl ps peer fetchEnd
+  refine ⟨ws, hws, ?_⟩
+  intro x hx
+  obtain ⟨bk', hbk', hcase⟩ := hgood x hx
+  rw [hbk] at hbk'
+  cases hbk'
+  have hstore : e.hdr = store := funext hhdr
+  have hancNH : envAncNH e = ancNH store scan := by
+    funext base n
+    simp only [envAncNH, ancNH, hanc]
+    cases store base with
+    | none => rfl
+    | some bb => rfl
+  have hbest : ((bk.number, bk.hash) : NH) = nhOf b := by simp [nhOf, hbn.1, hbn.2]
+  rcases hcase with ⟨hxe, hm, _⟩ | hval | ⟨n, top, j, t, ha, hw, hs, hv, hxt⟩
+  · refine ⟨b, by rw [hxe, hbest], hb, isAnc_refl _ _, Or.inr (Or.inl ⟨rfl, by rw [← hbn.2]; exact hm⟩)⟩
+  · rw [hancNH, hbest] at hval
+    obtain ⟨sp1, sp2⟩ := update_last_common_header_spec ok sok hroot e.mainHash e.tipNumber hb
+    cases hl : (ps.get peer).bind (·.lastCommon) with
+    | some xp =>
+      obtain ⟨hxp, hxps, rfl⟩ := hprev xp hl
+      rw [hl] at hval
+      obtain ⟨c, hc, h1, h2, _⟩ := sp1 hxp hxps
+      rw [hc] at hval
+      have hxc : x = nhOf c := (Option.some.inj hval).symm
+      exact ⟨c, hxc, isAnc_stored ok hb h2, h2, Or.inr (Or.inr (Or.inl ⟨hxp, rfl, h1⟩))⟩
+    | none =>
+      rw [hl] at hval
+      -- the main-chain guess exists, otherwise the value is `none`
+      cases hmh : e.mainHash (min e.tipNumber b.number) with
+      | none =>
+        simp [updateLastCommonValue, nhOf, hmh] at hval
+      | some mid =>
+        obtain ⟨m, hms, hmid, hmn⟩ := hmain _ _ hmh
+        obtain ⟨c, hc, h1, h2, _⟩ := sp2 m hms hmn (by rw [hmn, hmh, hmid])
+        rw [hc] at hval
+        have hxc : x = nhOf c := (Option.some.inj hval).symm
+        exact ⟨c, hxc, isAnc_stored ok hb h2, h2,
+          Or.inr (Or.inr (Or.inr ⟨rfl, m, by rw [hmid], h1⟩))⟩
+  · rw [hanc, hbn.2, hb] at ha
+    simp only [Option.bind_some] at ha
+    have hn : n ≤ b.number := by
+      apply Nat.le_of_not_lt
+      intro hlt
+      simp [getAncestor, hlt] at ha
+    rw [getAncestor_eq_walk ok sok hb hn] at ha
+    obtain ⟨htop, htops⟩ := walk_some_isAnc ok hroot hgp _ b top hb ha
+    rw [hstore] at hw
+    obtain ⟨ht, hts⟩ := walk_some_isAnc ok hroot hgp j top t htops hw
+    exact ⟨t, hxt, hts, isAnc_trans ht htop, Or.inl ⟨hs, hv⟩⟩
+
+/-- … so `last_common_header_stays_on` extends to `fetch`: whatever parent-closed set of headers the
+peer's best known header is in (the peer's chain; the known headers), every last common header `fetch`
+writes is in it too. -/
+theorem fetch_last_common_stays_on {store : Store} (ok : StoreOk store)
+    {scan : Nat → Hdr → Option Hdr} (sok : ScanOk store scan) {g : Hdr} (hroot : Rooted store g)
+    (hgp : store g.parent = none) {e : Env}
+    (hanc : ∀ base n, e.anc base n = (store base).bind (fun b => getAncestor store scan b n))
+    (hhdr : ∀ i, e.hdr i = store i)
+    (infl : Inflight) (ps : PeersSt) (peer fetchEnd : Nat) {bk : HIdx}
+    (hbk : (ps.get peer).bind (·.best) = some bk) {b : Hdr} (hb : store b.id = some b)
+    (hbn : bk.number = b.number ∧ bk.hash = b.id)
+    (hprev : ∀ x, (ps.get peer).bind (·.lastCommon) = some x → ∃ hx, store hx.id = some hx ∧ x = nhOf hx)
+    (hmain : ∀ n id, e.mainHash n = some id → ∃ m, store m.id = some m ∧ m.id = id ∧ m.number = n)
+    (P : Hdr → Prop) (hP : ∀ h p : Hdr, P h → store h.parent = some p → P p) (hPb : P b) :
+    ∃ ws, (fetch e infl ps peer fetchEnd).2.2 = applyWrites peer ws ps ∧
+      ∀ x ∈ ws, ∃ c, x = nhOf c ∧ P c := by
+  obtain ⟨ws, h1, h2⟩ := fetch_writes_are_ancestors_of_best ok sok hroot hgp hanc hhdr infl ps peer fetchEnd
+    hbk hb hbn hprev hmain
+  refine ⟨ws, h1, ?_⟩
+  intro x hx
+  obtain ⟨c, hc, _, hca, _⟩ := h2 x hx
+  exact ⟨c, hc, last_common_header_stays_on P hP hca hPb⟩
+
+
 /-- non-vacuity of the requests / writes theorems, on the run of `fetch_overruns_fetch_end` (empty, hence
 consistent, in-flight table; peer 7 with best known header 5 and last common header 1): the scan records
 exactly one request — header 3 from peer 7 — and makes exactly one last-common write, to the stored and
